@@ -663,6 +663,7 @@ def run_sampled(ctx, col):
 def shard(ctx, col):
     ra()
     run_sampled(ctx, col)
+    run_hist(ctx, col)
     run_exhaustive(ctx, col)
 
 
@@ -686,13 +687,625 @@ def evidence_extra(col):
             'ordered_pairs_evaluated': exh_evals,
             'clashing_pairs': col.labels.get('exh:meet:bot', 0),
         }
-        out['sampled_cases'] = col.evaluations - exh_evals
+        out['history_cases'] = col.labels.get('hist', 0)
+        out['history_cases_nontrivial'] = col.labels.get('hist:nontrivial', 0)
+        out['sampled_cases'] = col.evaluations - exh_evals - out['history_cases']
     return out
+
+
+# ------------------------------------------------------------------ histories
+# Sub-domain (3): histories of the constraint operations the type inference really
+# performs (type_inference/research/infer.py) on a small pool of TypeReference objects
+# that get aliased by earlier operations:
+#   ['U', i, j]     reference_algebra.Unify(ref_i, ref_j)
+#   ['F', i, f, j]  reference_algebra.UnifyRecordField(ref_i, f, ref_j)     (x.f, {f: v})
+#   ['E', l, e]     reference_algebra.UnifyListElement(ref_l, ref_e)        (e in l, [e])
+#   ['C', i]        ref_i.CloseRecord()                                     ({...} literal)
+# case = {'kind': 'hist', 'nodes': pool, 'refs': [node index...], 'ops': [...]}.
+# CloseRecord is only generated where its callers use it: on a reference that denotes a
+# record at that moment (infer.py closes a record-literal node right after unifying it
+# with an open record and its fields); a history stops at the first clash.
+
+HIST_SHARE = (1, 2)         # history cases per sampled pair/triple case (numerator, denom)
+HIST_MAX_ORDERS = 8
+
+
+class HistInvalid(Exception):
+    pass
+
+
+def hist_model_run(case, order):
+    """Model states along `order` (a list of (op index, flip)).  -> list of per-step
+    dicts(clash, expanded, shared_composite) ; raises HistInvalid for histories outside
+    the domain (occurs check, CloseRecord on a non-record)."""
+    nodes, refs, ops = case['nodes'], case['refs'], case['ops']
+    g = tm.Constraints(nodes)
+    if not g.acyclic(refs):
+        raise HistInvalid('cyclic')
+    steps = [{'clash': False, 'expanded': [g.expand(r) for r in refs]}]
+    for k, _flip in order:
+        op = ops[k]
+        before = steps[-1]['expanded']
+        entries = tm.op_entries(op, refs)
+        shared = g.shared_entry(entries)
+        shared_comp = shared and g.shared_entry(entries, composite=True)
+        try:
+            g.apply(op, refs)
+        except tm.NotRecord:
+            raise HistInvalid('close_on_non_record')
+        clash = g.clash is not None
+        expanded = None
+        if not clash:
+            if not g.acyclic(refs):
+                raise HistInvalid('cyclic')
+            expanded = [g.expand(r) for r in refs]
+        if not shared:
+            # cross-check with the tree formulation of the same operation
+            want = tm.op_tree_result(op, before)
+            tclash = any(v == BOT for v in want.values())
+            if tclash != clash or (not clash and
+                                   any(expanded[p] != v for p, v in want.items())):
+                raise OracleBug('tree and graph formulation disagree on op %s of %s: '
+                                '%s vs %s/%s' % (op, json.dumps(case), want, g.clash,
+                                                 expanded))
+        steps.append({'clash': clash, 'why': g.clash, 'expanded': expanded,
+                      'shared_composite': shared_comp,
+                      'classes': None if clash else [g.find(r) for r in refs]})
+        if clash:
+            break
+    return steps
+
+
+def hist_truncate(case):
+    """Drop the operations after the first clash (nothing is claimed about them)."""
+    order = [(k, 0) for k in range(len(case['ops']))]
+    steps = hist_model_run(case, order)
+    n = len(steps) - 1
+    if n < len(case['ops']):
+        case = dict(case, ops=case['ops'][:n])
+    return case, steps
+
+
+def hist_orders(ops, clash_final):
+    """Orders in which the history is re-run: the operations between two CloseRecord
+    calls are permuted among themselves (they are order-independent constraints),
+    CloseRecord calls stay where they are; Unify arguments are flipped by a fixed
+    pattern.  At most HIST_MAX_ORDERS orders, always including the full reversal."""
+    ident = tuple((k, 0) for k in range(len(ops)))
+    flipped = tuple((k, 1) for k in range(len(ops)))
+    if clash_final:
+        # the clash must be reported by the last operation in either orientation
+        return [ident] + ([flipped] if any(op[0] == 'U' for op in ops) else [])
+    segs = []
+    cur = []
+    for k, op in enumerate(ops):
+        if op[0] == 'C':
+            segs.append(cur)
+            segs.append([k])
+            cur = []
+        else:
+            cur.append(k)
+    segs.append(cur)
+    total = 1
+    for s in segs:
+        for x in range(2, len(s) + 1):
+            total *= x
+    stride = max(1, -(-total // (HIST_MAX_ORDERS - 2)))
+    out = [ident]
+    seen = {ident}
+
+    def add(seq):
+        if seq not in seen:
+            seen.add(seq)
+            out.append(seq)
+    rev = []
+    for s in segs:
+        rev.extend(reversed(s))
+    add(tuple((k, 1) for k in rev))
+    prod = itertools.product(*[itertools.permutations(s) for s in segs])
+    for n, combo in enumerate(itertools.islice(prod, 0, None, stride)):
+        flat = [k for part in combo for k in part]
+        add(tuple((k, ((n + 1) >> (p % 3)) & 1) for p, k in enumerate(flat)))
+    add(flipped)
+    return out[:HIST_MAX_ORDERS + 1]
+
+
+def apply_real(R, op, objs, flip=0):
+    k = op[0]
+    if k == 'U':
+        a, b = objs[op[1]], objs[op[2]]
+        if flip:
+            a, b = b, a
+        R.Unify(a, b)
+    elif k == 'F':
+        R.UnifyRecordField(objs[op[1]], op[2], objs[op[3]])
+    elif k == 'E':
+        R.UnifyListElement(objs[op[1]], objs[op[2]])
+    elif k == 'C':
+        objs[op[1]].CloseRecord()
+    else:
+        raise ValueError('unknown op %r' % (op,))
+
+
+def show_op(op):
+    k = op[0]
+    if k == 'U':
+        return 'Unify(r%d, r%d)' % (op[1], op[2])
+    if k == 'F':
+        return 'UnifyRecordField(r%d, %r, r%d)' % (op[1], op[2], op[3])
+    if k == 'E':
+        return 'UnifyListElement(r%d, r%d)' % (op[1], op[2])
+    return 'r%d.CloseRecord()' % op[1]
+
+
+def show_order(case, order):
+    out = []
+    for k, flip in order:
+        op = case['ops'][k]
+        if op[0] == 'U' and flip:
+            op = ['U', op[2], op[1]]
+        out.append(show_op(op))
+    return '; '.join(out)
+
+
+def describe_hist(case, steps0):
+    return 'pool: %s' % ' | '.join('r%d=%s' % (n, tm.show(t))
+                                   for n, t in enumerate(steps0['expanded']))
+
+
+def run_hist_order(case, order, steps, variant=None):
+    """Fresh pool + the operations in `order`, compared with the model after EVERY
+    operation.  variant 'doubled': every operation is issued twice in a row.
+    -> (bucket|None, detail, final_obs, objs)."""
+    R = ra()
+    nodes, refs, ops = case['nodes'], case['refs'], case['ops']
+    objs = build(nodes, refs)
+    try:
+        obs = observe(objs)
+    except Exception:
+        raise OracleBug('cannot observe the initial pool of %s' % json.dumps(case))
+    if obs != steps[0]['expanded']:
+        raise OracleBug('initial pool differs from the model: %s' % json.dumps(case))
+    for n, (k, flip) in enumerate(order):
+        op = ops[k]
+        st = steps[n + 1]
+        where = 'after op %d %s' % (n + 1, show_op(op))
+        prev = obs
+        try:
+            apply_real(R, op, objs, flip)
+            if variant == 'doubled' and not st['clash']:
+                apply_real(R, op, objs, flip)
+            obs = observe(objs)
+            rend = render(objs)
+        except RecursionError as e:
+            return 'exc:' + exc_sig(e), where + ': RecursionError', None, None
+        except Exception as e:
+            return 'exc:' + exc_sig(e), where + ':\n' + traceback.format_exc()[-1500:], \
+                None, None
+        got = ' | '.join('r%d=%s' % (x, s if obs[x] == BOT else tm.show(obs[x]))
+                         for x, s in enumerate(rend))
+        seen_clash = any(o == BOT for o in obs)
+        if st['clash']:
+            if not seen_clash:
+                b = K_SHARED_CLASH if st['shared_composite'] else 'missed_clash'
+                return b, ('%s: the constraints have no common instance (%s) but no '
+                           'reference of the pool shows a BadType: %s'
+                           % (where, st['why'], got)), obs, objs
+            return None, '', obs, objs
+        exp = st['expanded']
+        want = ' | '.join('r%d=%s' % (x, tm.show(t)) for x, t in enumerate(exp))
+        if seen_clash:
+            return 'spurious_clash', '%s: a common instance exists (%s), got %s' % (
+                where, want, got), obs, objs
+        cls = st['classes']
+        for x in range(len(refs)):
+            for y in range(x + 1, len(refs)):
+                if cls[x] == cls[y] and obs[x] != obs[y]:
+                    return 'sides_differ', ('%s: r%d and r%d were unified but denote '
+                                            'different types: %s' % (where, x, y, got)), \
+                        obs, objs
+        for x in range(len(refs)):
+            if not tm.leq(obs[x], prev[x]):
+                return 'lost_info', '%s: r%d was %s, now %s' % (
+                    where, x, tm.show(prev[x]), rend[x]), obs, objs
+        if obs != exp:
+            return 'not_meet', '%s: expected %s got %s' % (where, want, got), obs, objs
+    return None, '', obs, objs
+
+
+def eval_hist(case):
+    """-> dict(skip=...) or dict(fails, steps, orders, case)."""
+    try:
+        case, steps = hist_truncate(case)
+    except HistInvalid as e:
+        return {'skip': str(e)}
+    except tm.Cyclic:
+        return {'skip': 'cyclic'}
+    ops = case['ops']
+    if not ops:
+        return {'skip': 'empty'}
+    R = ra()
+    clash_final = steps[-1]['clash']
+    head = describe_hist(case, steps[0])
+    fails = []
+    seenb = set()
+
+    def fail(b, d):
+        if b != K_SHARED_CLASH:
+            b = 'hist:' + b
+        if b not in seenb:
+            seenb.add(b)
+            fails.append((b, d))
+    orders = hist_orders(ops, clash_final)
+    final0 = None
+    for n, order in enumerate(orders):
+        if n == 0:
+            st = steps
+        else:
+            try:
+                st = hist_model_run(case, list(order))
+            except (HistInvalid, tm.Cyclic) as e:
+                raise OracleBug('re-ordered history leaves the domain (%s): %s %s'
+                                % (e, json.dumps(case), order))
+            if st[-1]['clash'] != clash_final or len(st) != len(steps) or (
+                    not clash_final and st[-1]['expanded'] != steps[-1]['expanded']):
+                raise OracleBug('model is order dependent on %s order %s'
+                                % (json.dumps(case), order))
+        b, d, obs, objs = run_hist_order(case, order, st)
+        if b is not None:
+            fail(b, '%s\norder: %s\n%s' % (head, show_order(case, order), d))
+            continue
+        if clash_final:
+            continue
+        if final0 is None:
+            final0 = (obs, order)
+        elif obs != final0[0]:
+            fail('order_dependent', '%s\norder: %s\ngives %s\norder: %s\ngives %s' % (
+                head, show_order(case, final0[1]),
+                ' | '.join(tm.show(t) for t in final0[0]), show_order(case, order),
+                ' | '.join(tm.show(t) for t in obs)))
+        if n == 0:
+            # repeating the operations of a clash-free history changes nothing
+            before = render(objs)
+            try:
+                for k, flip in order:
+                    apply_real(R, ops[k], objs, flip)
+                    if ops[k][0] == 'U':
+                        apply_real(R, ops[k], objs, 1 - flip)
+                after = render(objs)
+                obs2 = observe(objs)
+            except Exception as e:
+                fail('exc_repeat:' + exc_sig(e), '%s\norder: %s\n%s' % (
+                    head, show_order(case, order), traceback.format_exc()[-1500:]))
+                continue
+            if after != before or obs2 != obs:
+                fail('not_idempotent', '%s\norder: %s\nafter the history %s, after '
+                     'repeating every operation %s' % (
+                         head, show_order(case, order), ' | '.join(before),
+                         ' | '.join(after)))
+    if not clash_final and not fails:
+        b, d, obs, objs = run_hist_order(case, orders[0], steps, variant='doubled')
+        if b is not None:
+            fail('not_idempotent', '%s\norder: %s (every operation issued twice in a '
+                 'row)\n%s' % (head, show_order(case, orders[0]), d))
+    return {'fails': fails, 'steps': steps, 'orders': len(orders), 'case': case}
+
+
+def classify_hist(case, steps):
+    """-> (nontrivial, labels).  Non-trivial: >= 2 operations and a later operation acts
+    on a reference whose class an earlier operation already touched (aliasing)."""
+    refs, ops = case['refs'], case['ops']
+    labels = ['hist', 'hist:len=%d' % len(ops)]
+    clash_final = steps[-1]['clash']
+    labels.append('hist:clash_final' if clash_final else 'hist:clash_free')
+    g = tm.Constraints(case['nodes'])
+    touched = set()
+    interacts = False
+    seen = set()
+    for n, op in enumerate(ops):
+        args = [op[1]] + ([op[2]] if op[0] in ('U', 'E') else []) + (
+            [op[3]] if op[0] == 'F' else [])
+        subj = refs[op[1]]
+        aliases = sum(1 for r in set(refs) if g.same(r, subj))
+        kind = g.kind(subj)
+        tag = None
+        if op[0] == 'C':
+            tag = 'close_on_aliased_class' if aliases > 1 else 'close_on_single'
+            if kind == 'closed':
+                tag = 'close_again'
+        elif op[0] == 'F':
+            if kind == 'closed':
+                tag = 'field_of_closed:' + ('present' if op[2] in g.fields(subj)
+                                            else 'missing')
+            elif kind == 'open':
+                tag = 'field_of_open:' + ('present' if op[2] in g.fields(subj)
+                                          else 'added')
+            else:
+                tag = 'field_of:' + ('Any' if kind == 'Any' else
+                                     'Singular' if kind == 'Singular' else 'non_record')
+            if aliases > 1:
+                seen.add('hist:field_via_alias')
+        elif op[0] == 'E':
+            tag = 'elem_of:' + ('list' if kind == 'list' else kind
+                                if kind in ('Any', 'Sequential') else 'non_list')
+        else:
+            k2 = g.kind(refs[op[2]])
+            comp = sum(1 for x in (kind, k2) if x in ('list', 'open', 'closed'))
+            tag = 'unify:%d_composite' % comp
+            if {kind, k2} == {'open', 'closed'}:
+                tag = 'unify:open/closed'
+            elif kind == k2 == 'closed':
+                tag = 'unify:closed/closed'
+        seen.add('hist:' + tag)
+        if n > 0 and any(g.same(refs[a], refs[t]) for a in args for t in touched):
+            interacts = True
+        touched.update(args)
+        if n + 1 < len(steps) and not steps[n + 1]['clash']:
+            g.apply(op, refs)
+    kinds = sorted(set(op[0] for op in ops))
+    labels.append('hist:ops=' + ''.join(kinds))
+    labels.extend(sorted(seen))
+    if clash_final:
+        labels.append('hist:clash_by:' + ops[-1][0])
+        labels.append('hist:clash:' + str(steps[-1]['why']))
+    if any(nd[0] == 'ref' for nd in case['nodes']):
+        labels.append('hist:reference_chain')
+    if len(set(refs)) < len(refs) or tm.has_sharing(case['nodes'], sorted(set(refs))):
+        labels.append('hist:pool_shares_objects')
+    nontrivial = len(ops) >= 2 and interacts
+    if nontrivial:
+        labels.append('hist:nontrivial')
+    return nontrivial, labels
+
+
+def hist_strategy():
+    from hypothesis import strategies as st
+
+    @st.composite
+    def cases(draw):
+        nodes = []
+        depths = []
+
+        def d(n):
+            return draw(st.integers(0, n - 1))
+
+        def push(kind, payload, dep, allow_raw=True):
+            raw = 1 if allow_raw and d(8) == 0 else 0
+            nodes.append([kind, payload, raw])
+            depths.append(dep)
+            return len(nodes) - 1
+
+        def small(maxd):
+            if nodes and d(6) == 0:             # the very same object again
+                c = [i for i in range(len(nodes)) if depths[i] <= maxd]
+                if c:
+                    return c[d(len(c))]
+            if maxd == 0 or d(3) == 0:
+                return push('atom', 'Any' if d(2) else tm.ATOMS[d(7)], 0)
+            r = d(5)
+            if r < 2:
+                c = small(maxd - 1)
+                return push('list', c, depths[c] + 1)
+            kind = 'open' if r < 4 else 'closed'
+            k = (0, 1, 1, 2)[d(4)]
+            perm = draw(st.permutations(SAMPLE_FIELDS))
+            fs = [[f, small(maxd - 1)] for f in sorted(perm[:k], key=tm.fkey)]
+            return push(kind, fs, 1 + max([depths[c] for _, c in fs] or [0]))
+
+        refs = []
+        nref = 3 + d(3)
+        for _ in range(nref):
+            r = d(20)
+            if r < 11:                          # every expression starts as Any
+                i = push('atom', 'Any', 0, False)
+            elif r < 15:                        # literals, typing predicates, signatures
+                i = push('atom', tm.ATOMS[1 + d(6)], 0, False)
+            else:                               # a copy of a built-in signature type
+                i = small(2)
+            if d(10) == 0:                      # chain link
+                nodes.append(['ref', i, 0])
+                depths.append(depths[i])
+                i = len(nodes) - 1
+            refs.append(i)
+        nspare = d(3)
+        spares = []
+        for _ in range(nspare):                 # partners of record literals
+            nodes.append(['open', [], 0])
+            depths.append(1)
+            refs.append(len(nodes) - 1)
+            spares.append(len(refs) - 1)
+        general = [p for p in range(len(refs)) if p not in spares]
+
+        m = tm.Constraints(nodes)
+        if not m.acyclic(refs):
+            return {'kind': 'hist', 'nodes': nodes, 'refs': refs, 'ops': []}
+
+        def pick(cands):
+            return cands[d(len(cands))]
+
+        def other(p):
+            c = [q for q in general if q != p]
+            return pick(c)
+
+        def propose(want_clash):
+            """-> (list of operations, spare literal partner used or None)."""
+            r = d(20)
+            if want_clash and d(2):
+                # addressing a field the closed record does not have
+                closed = [p for p in general if m.kind(refs[p]) == 'closed']
+                if closed:
+                    i = pick(closed)
+                    miss = [f for f in SAMPLE_FIELDS if f not in m.fields(refs[i])]
+                    if miss:
+                        return [['F', i, pick(miss), other(i)]], None
+            if r < 7:
+                closed = [p for p in general if m.kind(refs[p]) == 'closed']
+                i = pick(closed) if closed and d(3) == 0 else pick(general)
+                fs = m.fields(refs[i])
+                f = pick(fs) if fs and d(2) else SAMPLE_FIELDS[d(len(SAMPLE_FIELDS))]
+                return [['F', i, f, other(i)]], None
+            if r < 12:
+                recs = [p for p in general if m.kind(refs[p]) in ('open', 'closed')]
+                if recs and (r < 9 or not spares):
+                    return [['C', pick(recs)]], None
+                if spares:
+                    # a record literal: Unify(node, {...}); UnifyRecordField per field;
+                    # CloseRecord
+                    i = pick(general)
+                    s = pick(spares)
+                    out = [['U', i, s]]
+                    perm = draw(st.permutations(SAMPLE_FIELDS))
+                    for f in perm[:d(3)]:
+                        out.append(['F', i, f, other(i)])
+                    out.append(['C', i])
+                    return out, s
+            if r < 17:
+                i = pick(general)
+                return [['U', i, other(i)]], None
+            i = pick(general)
+            return [['E', i, other(i)]], None
+
+        def attempt(cand):
+            """-> (status, number of ops applied, model after)."""
+            m2 = m.clone()
+            for n, op in enumerate(cand):
+                try:
+                    m2.apply(op, refs)
+                except tm.NotRecord:
+                    return 'invalid', n, None
+                if m2.clash is not None:
+                    return 'clash', n + 1, m2
+                if not m2.acyclic(refs):
+                    return 'invalid', n, None
+            return 'ok', len(cand), m2
+
+        ops = []
+        want = 6 - d(5)
+        while len(ops) < want:
+            allow_clash = len(ops) >= 1 and d(8) == 0
+            chosen = None
+            for _ in range(6):
+                cand, spare = propose(allow_clash)
+                status, n, m2 = attempt(cand)
+                if status == 'ok' or (status == 'clash' and allow_clash):
+                    chosen = (status, cand[:n], m2, spare)
+                    break
+                if status == 'clash' and chosen is None:
+                    chosen = (status, cand[:n], m2, spare)
+            if chosen is None:
+                break
+            status, applied, m2, spare = chosen
+            ops.extend(applied)
+            m = m2
+            if spare is not None:
+                spares.remove(spare)
+                general.append(spare)
+            if status == 'clash':
+                break
+        return {'kind': 'hist', 'nodes': nodes, 'refs': refs, 'ops': ops}
+    return cases()
+
+
+def hist_budget(n):
+    return (n * HIST_SHARE[0] + HIST_SHARE[1] - 1) // HIST_SHARE[1] if n > 0 else 0
+
+
+def run_hist(ctx, col):
+    def one(case):
+        try:
+            tcase, steps = hist_truncate(case)
+        except (HistInvalid, tm.Cyclic) as e:
+            col.label('hist:skipped:' + str(e))
+            return
+        if not tcase['ops']:
+            col.label('hist:skipped:empty')
+            return
+        res = eval_hist(tcase)
+        if 'skip' in res:
+            col.label('hist:skipped:' + res['skip'])
+            return
+        nt, labels = classify_hist(tcase, steps)
+        labels.append('hist:orders=%d' % res['orders'])
+        sample = None
+        if nt and not steps[-1]['clash'] and len(tcase['ops']) >= 3 and \
+                'hist:close_on_aliased_class' in labels and len(col.samples) < 3:
+            sample = {'pool': [tm.show(t) for t in steps[0]['expanded']],
+                      'history': [show_op(op) for op in tcase['ops']],
+                      'result': [tm.show(t) for t in steps[-1]['expanded']],
+                      'orders_run': res['orders'], 'sub_domain': 'history'}
+        if res['fails']:
+            labels.append('hist:failed')
+            for b, dtl in res['fails']:
+                col.fail(b, tcase, dtl)
+        col.case(tcase, nt, labels, sample)
+    core.hyp_run(one, hist_strategy(), hist_budget(ctx.budget), ctx.hyp_seed + 500)
+
+
+def minimise_hist(case, bucket):
+    def fails(c):
+        try:
+            res = eval_hist(c)
+            return any(b == bucket for b, _ in res.get('fails', ()))
+        except Exception:
+            return False
+    budget = [300]
+    progress = True
+    while progress and budget[0] > 0:
+        progress = False
+        cands = []
+        ops = case['ops']
+        for x in range(len(ops) - 1, -1, -1):           # drop an operation
+            cands.append(dict(case, ops=ops[:x] + ops[x + 1:]))
+        for i, (k, p, raw) in enumerate(case['nodes']):  # simplify the pool
+            alts = []
+            if k == 'ref':
+                tgt = case['nodes'][p]
+                alts.append([tgt[0], tgt[1], 0])
+            if raw:
+                alts.append([k, p, 0])
+            if k in ('list', 'open', 'closed') or (k == 'atom' and p != 'Any'):
+                alts.append(['atom', 'Any', 0])
+            if k in ('open', 'closed'):
+                for x in range(len(p)):
+                    alts.append([k, p[:x] + p[x + 1:], raw])
+            for alt in alts:
+                nodes = [list(n) for n in case['nodes']]
+                nodes[i] = alt
+                cands.append(dict(case, nodes=nodes))
+        for c2 in cands:
+            if budget[0] <= 0:
+                break
+            budget[0] -= 1
+            if fails(c2):
+                case = c2
+                progress = True
+                break
+    # drop pool references no operation mentions, renumber
+    used = sorted(set(a for op in case['ops'] for a in
+                      ([op[1]] + ([op[2]] if op[0] in ('U', 'E') else []) +
+                       ([op[3]] if op[0] == 'F' else []))))
+    ren = {o: n for n, o in enumerate(used)}
+    ops2 = []
+    for op in case['ops']:
+        op = list(op)
+        op[1] = ren[op[1]]
+        if op[0] in ('U', 'E'):
+            op[2] = ren[op[2]]
+        if op[0] == 'F':
+            op[3] = ren[op[3]]
+        ops2.append(op)
+    c2 = dict(case, refs=[case['refs'][o] for o in used], ops=ops2)
+    p = prune({'nodes': c2['nodes'], 'roots': c2['refs'], 'ops': c2['ops']})
+    c2 = {'kind': 'hist', 'nodes': p['nodes'], 'refs': p['roots'], 'ops': p['ops']}
+    return c2 if fails(c2) else case
 
 
 # ------------------------------------------------------------------ replay / minimise
 
 def _check_here(case):
+    if case.get('kind') == 'hist':
+        res = eval_hist(case)
+        return [] if 'skip' in res else list(res['fails'])
     res = eval_case(case)
     if 'skip' in res:
         return []
@@ -715,6 +1328,9 @@ def check_case(case):
 
 
 def minimise(case, bucket):
+    if case.get('kind') == 'hist':
+        return minimise_hist(case, bucket)
+
     def fails(c):
         try:
             return any(b == bucket for b, _ in _check_here(c))
